@@ -8,8 +8,8 @@ PROP = {
     'checker_vo': 'deleg/DelegCheck.vo',
     'scenario': 'c02',
     'evals': ['agrees', 'c02_ok'],
-    # --limits 1 / --rollshrink 1 switch on the generator modes that reproduce the known findings F02a / F04c,
-    # --stuck 1 the directed probes of the candidate finding F02d/F02e (see the evidence note)
+    # --limits 1 reproduces the known finding F02a, --stuck 1 switches the generator guards off and adds the directed
+    # probes of F02d/F02e/F02f, --rollshrink 1 drives activation under a smaller new certificate (F04c, repaired: passes)
     'extra': {'quick': {'histories': 8, 'ops': 30, 'limits': 1, 'rollshrink': 1, 'stuck': 1},
               'thorough': {'histories': 32, 'ops': 80, 'limits': 1, 'rollshrink': 1, 'stuck': 1}},
     'replay_header': D_HEADER,
@@ -27,8 +27,8 @@ PROP = {
 }
 
 META = {
-    'text': 'Theorems (Coq, closed under the global context) on a model of resource delegation with resource sets as bit masks: a child certificate is issued exactly when the request limit fits and then carries entitlement and issuer intersected, narrowed by the limit (issued_exact, failure mode included); "no issued or suspended child certificate outside the certificate of the current key" is an invariant of EVERY command of the CA (never_overclaims, by cases over all commands, not only after syncs); a certificate received for the current key updates the key and shrinks issued and suspended certificates alike in the state that very command produces (shrink_same_command), each to exactly old resources intersected with the new certificate or removal (shrink_exact, independent of suspension history); the sync driver as a step function over (parent class, child details, child class) reaches Settled in at most two syncs from every non-roll state and in at most three from the last phase of a key roll, and a settled state with nothing new is a fixed point storing no command (sync_converges, sync_converges_rollold, sync_idempotent; wants_update in arithmetic form). Three-part treatment (full statement / refutation / strongest restriction) for the known findings F02a (limited certificate cannot be shrunk) and F04c (activation re-issues ROAs unfiltered), and model-level witnesses of the reported candidates (an open request meeting an empty entitlement never clears; a revocation of an old key the parent no longer knows is refused for ever). Tie: every stored command of random multi-level histories (entitlement grow / shrink / partial / family-partial / nothing / regain at three levels, two parents, class-name mapping, suspend / unsuspend, key rolls, RFC 6492 issue requests with limits from a harness-built child) is replayed through the model inside Coq on the real state before and after that very command, every sync-driver call is compared with the sync step function, and the executable forms of the theorems (containment of issued, suspended and published decoded certificates and ROAs, issued = entitlement x issuer x limit, shrink exactness in the same command, Settled within a bounded number of rounds, an extra round stores nothing) are evaluated on the implementation states.',
+    'text': 'Theorems (Coq, closed under the global context) on a model of resource delegation with resource sets as bit masks: a child certificate is issued exactly when the request limit fits and then carries entitlement and issuer intersected, narrowed by the limit (issued_exact, failure mode included); "no issued or suspended child certificate outside the certificate of the current key" is an invariant of EVERY command of the CA (never_overclaims, by cases over all commands, not only after syncs); a certificate received for the current key updates the key and shrinks issued and suspended certificates alike in the state that very command produces (shrink_same_command), each to exactly old resources intersected with the new certificate or removal (shrink_exact, independent of suspension history); the sync driver as a step function over (parent class, child details, child class) reaches Settled in at most two syncs from every non-roll state and in at most three from the last phase of a key roll, and a settled state with nothing new is a fixed point storing no command (sync_converges, sync_converges_rollold, sync_idempotent; wants_update in arithmetic form). Three-part treatment (full statement / refutation / strongest restriction) for the known finding F02a (limited certificate cannot be shrunk); for F04c (repaired by 0ff85b31) the positive theorem - after activation no ROA and no child certificate outside the certificate of the new key - with the originally pinned activation kept as a refuted regression witness; model-level witnesses of the findings F02e/F02f/F02d (an open request meeting an empty entitlement never clears; a revocation of an old key the parent no longer knows is refused for ever). Tie: every stored command of random multi-level histories (entitlement grow / shrink / partial / family-partial / nothing / regain at three levels, two parents, class-name mapping, suspend / unsuspend, key rolls, RFC 6492 issue requests with limits from a harness-built child) is replayed through the model inside Coq on the real state before and after that very command, every sync-driver call is compared with the sync step function, and the executable forms of the theorems (containment of issued, suspended and published decoded certificates and ROAs, issued = entitlement x issuer x limit, shrink exactness in the same command, Settled within a bounded number of rounds, an extra round stores nothing) are evaluated on the implementation states.',
     'design_ref': 'DESIGN.md section 5 C02',
-    'note': 'Trusted: Coq kernel + vm_compute; harness abstraction in c02.rs (resource masks, replay of stored events through the real apply). Modelled not verified: issue_cert / make_issued_cert / RequestResourceLimit::apply_to, shrink_overclaiming / re_issue / activate_key, entitlement_class, child commands of certauth.rs, wants_update / append_entitlement_events, the sync driver of manager.rs on one class pair. Not modelled: TA proxy/signer exchange, ASPA / BGPsec objects, ROA aggregation, the RollPending / RollNew states in the convergence theorems (the step function covers them and is compared on them). Known findings F02a, F04c are reproduced only with --limits 1 / --rollshrink 1; candidate F02d/F02e with --stuck 1.',
+    'note': 'Trusted: Coq kernel + vm_compute; harness abstraction in c02.rs (resource masks, replay of stored events through the real apply). Modelled not verified: issue_cert / make_issued_cert / RequestResourceLimit::apply_to, shrink_overclaiming / re_issue / activate_key, entitlement_class, child commands of certauth.rs, wants_update / append_entitlement_events, the sync driver of manager.rs on one class pair. Not modelled: TA proxy/signer exchange, ASPA / BGPsec objects, ROA aggregation, the RollPending / RollNew states in the convergence theorems (the step function covers them and is compared on them). Known finding F02a is reproduced with --limits 1, F02d/F02e/F02f with --stuck 1 (and as consequences of class drops); --rollshrink 1 exercises activation under a smaller new certificate and must pass since 0ff85b31.',
     'technique': 'Coq proof over bit-mask resource algebra and a CA/sync step model (case analysis, invariants) + command-level and sync-level correspondence evaluated in Coq',
 }
